@@ -450,6 +450,13 @@ class Gen:
             return e
         return ['method', e, 'toList', [], []]
 
+    def raising_source(self, sc, d, n):
+        """a lazy sequence that raises at its element number n + 1, n + 2 or never (who consumes how much of it?)"""
+        r = self.rng
+        good = [self.expr('int', sc, d - 1) for _ in range(n)]
+        tail = r.choice(([], [['lit', 'a']], [['lit', 3], ['lit', None]], [['lit', 3], ['lit', 4], ['lit', 'a']]))
+        return ['method', ['list', good + tail], 'select', [['bin', 'add', ['var', '$'], ['lit', 1]]], []]
+
     def rec_with(self, sc, ft):
         return self.rng.choice((REC_SUB, REC_SUB, REC_ODD, REC_HOST))
 
@@ -574,12 +581,18 @@ class Gen:
             if r.random() < 0.12:                         # a length that need not fit
                 src = self.expr(('list', 'int'), sc, d - 1)
                 tys = ['int'] * len(tys)
+            elif r.random() < 0.08:                       # unpack(names) looks at len(names) + 1 elements of its source
+                src = self.raising_source(sc, d, len(tys))
+                tys = ['int'] * len(tys)
             binds = {var_of(nm): ty for nm, ty in zip(names, tys)}
             return ['arrow', ['method', src, 'unpack', [name_arg(nm) for nm in names], []], self.expr(t, sc.bind(binds), d - 1)]
         if kind == 'unpackpos':
             tys = [self.some_type(True) for _ in range(r.choice((1, 2)))]
             src = ['list', [self.expr(ty, sc, d - 1) for ty in tys]]
             binds = {'$%d' % (i + 1): ty for i, ty in enumerate(tys)}
+            if r.random() < 0.25:                         # unpack() without names consumes the WHOLE source
+                src = self.raising_source(sc, d, len(tys))
+                binds = {k: 'int' for k in binds}
             self.pool.update(binds)
             return ['arrow', ['method', src, 'unpack', [], []], self.expr(t, sc.bind(binds), d - 1)]
         if kind == 'def':
